@@ -28,6 +28,7 @@ import (
 	"github.com/internetarchive/Zeno/internal/pkg/source/hq"
 	"github.com/internetarchive/Zeno/internal/pkg/stats"
 	"github.com/internetarchive/Zeno/internal/pkg/utils"
+	"github.com/internetarchive/Zeno/internal/pkg/verifhook"
 	"github.com/internetarchive/Zeno/pkg/models"
 )
 
@@ -109,14 +110,18 @@ func (p *preprocessor) worker(workerID string) {
 	for {
 		select {
 		case <-p.ctx.Done():
+			verifhook.Obs("pre.exit", workerID)
 			logger.Debug("shutting down")
 			return
 		case <-controlChans.PauseCh:
+			verifhook.At("pre.pause.ack", workerID)
 			logger.Debug("received pause event")
 			controlChans.ResumeCh <- struct{}{}
+			verifhook.At("pre.resumed", workerID)
 			logger.Debug("received resume event")
 		case seed, ok := <-p.inputCh:
 			if ok {
+				verifhook.At("pre.recv", seed)
 				logger.Debug("received seed", "seed", seed.GetShortID())
 
 				if err := seed.CheckConsistency(); err != nil {
@@ -128,12 +133,15 @@ func (p *preprocessor) worker(workerID string) {
 				}
 
 				preprocess(workerID, seed)
+				verifhook.At("pre.send", seed)
 
 				select {
 				case <-p.ctx.Done():
+					verifhook.Obs("pre.abort", seed)
 					logger.Debug("aborting seed due to stop", "seed", seed.GetShortID())
 					return
 				case p.outputCh <- seed:
+					verifhook.Obs("pre.sent", seed)
 				}
 			}
 		}
@@ -165,6 +173,7 @@ func preprocess(workerID string, seed *models.Item) {
 			err := NormalizeURL(items[i].GetURL(), nil)
 			if err != nil {
 				logger.Debug("unable to validate URL", "item_id", items[i].GetShortID(), "seed_id", seed.GetShortID(), "url", items[i].GetURL().Raw, "err", err.Error())
+				verifhook.Obs("pre.verdict", "normalize-fail-seed", items[i], seed)
 				items[i].SetStatus(models.ItemFailed)
 				return
 			}
@@ -172,6 +181,7 @@ func preprocess(workerID string, seed *models.Item) {
 			err := NormalizeURL(items[i].GetURL(), items[i].GetParent().GetURL())
 			if err != nil {
 				logger.Debug("unable to validate URL", "item_id", items[i].GetShortID(), "seed_id", seed.GetShortID(), "url", items[i].GetURL().Raw, "err", err.Error())
+				verifhook.Obs("pre.verdict", "normalize-fail-child", items[i], seed)
 				items[i].GetParent().RemoveChild(items[i])
 				continue
 			}
@@ -187,6 +197,7 @@ func preprocess(workerID string, seed *models.Item) {
 					"seed_id", seed.GetShortID(),
 					"url", items[i].GetURL().String())
 
+				verifhook.Obs("pre.verdict", "include-miss", items[i], seed)
 				if items[i].IsChild() || items[i].IsRedirection() {
 					items[i].GetParent().RemoveChild(items[i])
 					continue
@@ -207,6 +218,7 @@ func preprocess(workerID string, seed *models.Item) {
 				"seed_id", seed.GetShortID(),
 				"url", items[i].GetURL().String())
 
+			verifhook.Obs("pre.verdict", "exclude-hit", items[i], seed)
 			if items[i].IsChild() || items[i].IsRedirection() {
 				items[i].GetParent().RemoveChild(items[i])
 				continue
@@ -220,6 +232,7 @@ func preprocess(workerID string, seed *models.Item) {
 		// (which means that they are not assets, but false positives)
 		if items[i].IsChild() {
 			if items[i].GetURL().GetParsed().Path == "" || items[i].GetURL().GetParsed().Path == "/" {
+				verifhook.Obs("pre.verdict", "root-path", items[i], seed)
 				logger.Debug("removing child with empty path", "item_id", items[i].GetShortID(), "url", items[i].GetURL().Raw)
 				items[i].GetParent().RemoveChild(items[i])
 			}
@@ -227,7 +240,9 @@ func preprocess(workerID string, seed *models.Item) {
 	}
 
 	// Deduplicate items based on their URL and remove duplicates
+	verifhook.Obs("pre.dedupe.before", seed)
 	seed.DedupeItems()
+	verifhook.Obs("pre.dedupe.after", seed)
 
 	items, err = seed.GetNodesAtLevel(operatingDepth)
 	if err != nil {
@@ -241,6 +256,7 @@ func preprocess(workerID string, seed *models.Item) {
 	}
 
 	// If the item is a redirection or an asset, we need to seencheck it if needed
+	verifhook.At("pre.seencheck.before", seed)
 	if config.Get().UseHQ {
 		err = hq.SeencheckItem(seed)
 		if err != nil {
@@ -253,6 +269,7 @@ func preprocess(workerID string, seed *models.Item) {
 		}
 	}
 
+	verifhook.At("pre.seencheck.after", seed)
 	// Recreate the items list after deduplication and seencheck
 	items, err = seed.GetNodesAtLevel(operatingDepth)
 	if err != nil {
@@ -301,6 +318,7 @@ func preprocess(workerID string, seed *models.Item) {
 
 		items[i].GetURL().SetRequest(req)
 		items[i].SetStatus(models.ItemPreProcessed)
+		verifhook.Obs("pre.request", items[i], seed)
 	}
 
 	return
